@@ -19,7 +19,7 @@ RULE = ("histories over add (Note object, bare name, 'Name-octave', name+octave,
         "35 roots, 35 names x 35 interval shorthands x up/down, numerals x suffixes x 30 keys. Non-trivial: a history with an "
         "add after a remove, an enharmonic duplicate add or a list mixing octaves; a constructor case whose chord crosses an "
         "octave boundary or has >= 4 notes."
-        " Also: octave 0 (pool and an exhaustive alphabet around it), the container's own list or a returned list used as removal list, keyword forms, containers handed in earlier are re-checked after every later step and touched by the caller (third exhaustive alphabet).")
+        " Also: octave 0 (pool and an exhaustive alphabet around it), the container's own list or a returned list used as removal list, keyword forms, containers handed in earlier are re-checked after every later step and touched by the caller (third exhaustive alphabet); the from_* constructors on a container that already holds notes (documented: empty the container, then add).")
 ASSUMPTIONS = ["bare-name octave follows the documented rule (octave of the top note, +1 if that lies below it); where that rule "
                "and 'at or above the top note' disagree (B#/Cb spellings) either outcome is accepted",
                "container is_dissonant(f) = not is_consonant(not f), mirroring the pairwise definition",
@@ -307,6 +307,10 @@ def check_from_chord(ctx, case):
     ctx.check(failed(nc2) or [[n.name, n.octave] for n in nc2.notes] == [[n.name, n.octave] for n in nc.notes], "constructor/from_chord-alias", sh)
     nc3 = ctx.ok("constructor", NoteContainer, list(names))
     ctx.check(failed(nc3) or nc3 == nc, "constructor/list-of-bare-names", sh)
+    # "Empty the container and add the notes in the shorthand": a container that already holds notes gives the same result
+    used = ctx.ok("from_chord_shorthand/used-container", lambda: NoteContainer(["D-2", "F#-6", "A-4"]).from_chord_shorthand(sh))
+    ctx.check(failed(used) or [[n.name, n.octave] for n in used.notes] == [[n.name, n.octave] for n in nc.notes], "constructor/used-container",
+              lambda: "%r on a container holding D-2, F#-6, A-4 -> %r, on an empty one %r" % (sh, used, nc))
     ctx.note_case(len(exp) >= 4 or any(o > 4 for (_, o) in exp), ["from_chord:%d-notes" % len(exp)])
 
 
@@ -319,6 +323,9 @@ def check_from_interval(ctx, case):
     got = [[n.name, n.octave, T.pitch(n.name, n.octave)] for n in nc.notes]
     alias = ctx.ok("from_interval", NoteContainer().from_interval, name, sh, up)
     ctx.check(failed(alias) or [[n.name, n.octave] for n in alias.notes] == [g[:2] for g in got], "constructor/from_interval-alias", repr(case))
+    used = ctx.ok("from_interval_shorthand/used-container", lambda: NoteContainer(["D-2", "F#-6", "A-4"]).from_interval_shorthand(name, sh, up))
+    ctx.check(failed(used) or [[n.name, n.octave] for n in used.notes] == [g[:2] for g in got], "constructor/used-container",
+              lambda: "%r on a container holding D-2, F#-6, A-4 -> %r, on an empty one %r" % (case, used, nc))
     start = T.pitch(name, 4)
     other = start + size if up else start - size
     letter = T.letter_up(name[0], (T.shorthand_degree(sh) - 1) * (1 if up else -1))
@@ -343,6 +350,9 @@ def check_from_progression(ctx, case):
     exp = _voicing(ctx, nc, ch[0], "%s in %s" % (numeral, key))
     alias = ctx.ok("from_progression", NoteContainer().from_progression, numeral, key)
     ctx.check(failed(alias) or alias == nc, "constructor/from_progression-alias", repr(case))
+    used = ctx.ok("from_progression_shorthand/used-container", lambda: NoteContainer(["D-2", "F#-6", "A-4"]).from_progression_shorthand(numeral, key))
+    ctx.check(failed(used) or [[n.name, n.octave] for n in used.notes] == [[n.name, n.octave] for n in nc.notes], "constructor/used-container",
+              lambda: "%r on a container holding D-2, F#-6, A-4 -> %r, on an empty one %r" % (case, used, nc))
     ctx.note_case(len(exp) >= 4 or any(o > 4 for (_, o) in exp), ["from_progression:%d-notes" % len(exp)])
 
 
